@@ -51,10 +51,11 @@ Definition in_range (p : pos) (r : range) : bool :=
 
 (* One entry per MapKey node of a d2ast.Map, in order:
      name  = Some (Key.Path[0].ScalarString())   if mk.Key != nil && len(mk.Key.Path) > 0
+     unq   = Key.Path[0].IsUnquoted()            (false when there is no key)
      vmap  = Some (the value map)                if mk.Value.Map != nil
    Other node kinds (comments, substitutions, imports) are skipped by the loop and are not passed. *)
 Inductive amap := AMap (rng : range) (keys : list akey)
-with akey := AKey (name : option str) (vmap : option amap).
+with akey := AKey (name : option str) (unq : bool) (vmap : option amap).
 
 Definition rng_of (m : amap) : range := match m with AMap r _ => r end.
 Definition keys_of (m : amap) : list akey := match m with AMap _ ks => ks end.
@@ -67,8 +68,14 @@ Definition is_board_kw (n : str) : bool :=
   str_eqb n s_layers || str_eqb n s_scenarios || str_eqb n s_steps.
 
 (* does the loop body follow this key?  (len(currPath)%2 == 0 => the key must be a board keyword) *)
-Definition follows (curr : list str) (n : str) : bool :=
-  negb (Nat.even (length curr)) || is_board_kw n.
+(* strings.ToLower as far as equality with layers / scenarios / steps goes: no non-ASCII rune lower-cases
+   to a single ASCII letter of these words (U+212A -> k, U+0130 -> two runes) *)
+Definition lower_a (r : N) : N := if (N.leb 65 r && N.leb r 90)%bool then (r + 32)%N else r.
+
+(* does the loop body follow this key?  len(currPath)%2 == 0 => the key must be a board keyword: unquoted,
+   compared case-insensitively (d2 f9da14f23; before: the exact lower-case text, quoting ignored) *)
+Definition follows (curr : list str) (n : str) (unq : bool) : bool :=
+  negb (Nat.even (length curr)) || (is_board_kw (map lower_a n) && unq).
 
 (* d2lsp.getBoardPathAtPosition; None = the Go nil slice *)
 Fixpoint board_path (m : amap) (curr : list str) (p : pos) {struct m} : option (list str) :=
@@ -79,10 +86,10 @@ Fixpoint board_path (m : amap) (curr : list str) (p : pos) {struct m} : option (
         (fix go (ks : list akey) : option (list str) :=
            match ks with
            | [] => None
-           | AKey None _ :: ks' => go ks'
-           | AKey (Some _) None :: ks' => go ks'
-           | AKey (Some n) (Some sub) :: ks' =>
-               if negb (follows curr n) then go ks'
+           | AKey None _ _ :: ks' => go ks'
+           | AKey (Some _) _ None :: ks' => go ks'
+           | AKey (Some n) u (Some sub) :: ks' =>
+               if negb (follows curr n u) then go ks'
                else if in_range p (rng_of sub) then
                  let np := curr ++ [n] in
                  match board_path sub np p with
@@ -109,8 +116,8 @@ Fixpoint blocks (m : amap) (curr : list str) {struct m} : list (list str * range
       (fix go (ks : list akey) : list (list str * range) :=
          match ks with
          | [] => []
-         | AKey (Some n) (Some sub) :: ks' =>
-             if follows curr n
+         | AKey (Some n) u (Some sub) :: ks' =>
+             if follows curr n u
              then (curr ++ [n], rng_of sub) :: blocks sub (curr ++ [n]) ++ go ks'
              else go ks'
          | _ :: ks' => go ks'
@@ -125,7 +132,7 @@ Definition lex_lt (p q : pos) : bool :=
 Definition lex_le (p q : pos) : bool := negb (lex_lt q p).
 
 Definition sub_maps (ks : list akey) : list amap :=
-  flat_map (fun k => match k with AKey _ (Some s) => [s] | _ => [] end) ks.
+  flat_map (fun k => match k with AKey _ _ (Some s) => [s] | _ => [] end) ks.
 
 Fixpoint ordered_disjoint (rs : list range) : bool :=
   match rs with
@@ -142,7 +149,7 @@ Fixpoint wf (m : amap) {struct m} : bool :=
       && (fix go (ks : list akey) : bool :=
             match ks with
             | [] => true
-            | AKey _ (Some sub) :: ks' =>
+            | AKey _ _ (Some sub) :: ks' =>
                 lex_le (r_start r) (r_start (rng_of sub)) && lex_le (r_end (rng_of sub)) (r_end r)
                 && wf sub && go ks'
             | _ :: ks' => go ks'
